@@ -2169,6 +2169,9 @@ func (vm *Thread) opCallMethodTCO(callInfoIndex int) (err value.Value) {
 		return vm.callGetterMethod(m)
 	case *SetterMethod:
 		return vm.callSetterMethod(m)
+	case nil:
+		// the class does not respond to this method (eg. `==` on a class without a superclass)
+		return value.Ref(value.NewNoMethodError(callInfo.Name.String(), self))
 	default:
 		panic(fmt.Sprintf("tried to call an invalid method: %T (%s) of class: %s (%s)", method, callInfo.Name, class.Name, self.Inspect()))
 	}
@@ -2193,6 +2196,9 @@ func (vm *Thread) opCallMethod(callInfoIndex int) (err value.Value) {
 		return vm.callGetterMethod(m)
 	case *SetterMethod:
 		return vm.callSetterMethod(m)
+	case nil:
+		// the class does not respond to this method (eg. `==` on a class without a superclass)
+		return value.Ref(value.NewNoMethodError(callInfo.Name.String(), self))
 	default:
 		panic(fmt.Sprintf("tried to call an invalid method: %T (%s) of class: %s (%s)", method, callInfo.Name, class.Name, self.Inspect()))
 	}
@@ -3295,7 +3301,8 @@ func (vm *Thread) callEqualityOperator(fn binaryOperationWithoutErrFunc, methodN
 	class := self.DirectClass()
 	method := class.LookupMethod(methodName)
 	if method == nil {
-		vm.push(value.BoolVal(left == right))
+		vm.pop()
+		vm.replace(value.BoolVal(left == right))
 		return value.Undefined
 	}
 
@@ -3317,7 +3324,8 @@ func (vm *Thread) callNegatedEqualityOperator(fn binaryOperationWithoutErrFunc, 
 	class := self.DirectClass()
 	method := class.LookupMethod(methodName)
 	if method == nil {
-		vm.push(value.BoolVal(left != right))
+		vm.pop()
+		vm.replace(value.BoolVal(left != right))
 		return value.Undefined
 	}
 
